@@ -78,6 +78,8 @@ def gen_attrs(rng):
                      rng.choice(("bogus_attr", "acres", "TRS")))
     if rng.random() < 0.08:
         attrs.append(attrs[0])          # the same column twice
+    if rng.random() < 0.15:
+        attrs.append(rng.choice(("orig_desc", "desc", "pp_desc", "source")))
     return attrs
 
 
@@ -99,9 +101,16 @@ def gen_nice(rng, attrs, earlier=None):
 
 def gen_source(rng):
     r = rng.random()
-    if r < 0.06:
+    if r < 0.03:
+        # carriage returns, no comma / quote / line feed anywhere
+        return {"kind": "desc", "config": None, "parse_qq": True,
+                "source": "scan 4\rpage 2",
+                "text": rng.choice((
+                    "T154N-R97W Sec 14: NE/4\rSec 15: W/2",
+                    "T154N-R97W\rSec 14: Lots 1 - 3\rSec 15: that part of the NE/4\rlying north of the river"))}
+    if r < 0.08:
         return {"kind": "empty"}
-    if r < 0.10:
+    if r < 0.12:
         return {"kind": "desc_unparsed", "text": corpus.gen_desc(rng)}
     if r < 0.7:
         return {"kind": "desc", "text": corpus.gen_desc(rng),
